@@ -462,7 +462,7 @@ func hostByHashing(pool []*Upstream, s string) *Upstream {
 			continue
 		}
 		h := hash(up.String() + s) // important to hash key and server together
-		if h > highestHash {
+		if upstream == nil || h > highestHash {
 			highestHash = h
 			upstream = up
 		}
